@@ -182,6 +182,11 @@ def validate_schema(args):
     version, quick, seed, work = args
     f = facts.load(version)
     units, mods, evs = make_events(f, quick, seed)
+    # history: the SAME texts are first put to ANOTHER schema in this process (its units and factors differ); what this schema
+    # answers afterwards must not depend on that
+    others = [v for v, _ in facts.bundled() if v != version]
+    prior = others[(seed + sum(map(ord, version))) % len(others)]
+    observe((prior, evs[:: max(1, len(evs) // 1500)]))
     obs = observe((version, evs))
     numeric_bad = []
     for e, o in zip(evs, obs):
